@@ -183,20 +183,20 @@ def msg_exhaustive(chk, relevant, mask="all", cross_impl=False, spec_relevant=No
 
 
 def c01(chk):
-    chk.extract()
+    chk.extract(("messageTypes", "timeCodeTypes"))
     chk.proofs(["Midi.Props.C01"])
     msg_exhaustive(chk, C01_CELLS, mask="c01")
     chk.assumptions += ["a third-party implementor is any record of three getters + from_bytes_unchecked (model: universally quantified `Factory`); the harness exercises two concrete ones"]
 
 
 def c02(chk):
-    chk.extract()
+    chk.extract(("messageTypes", "timeCodeTypes", "controllerNumbers"))
     chk.proofs(["Midi.Props.C02"])
     msg_exhaustive(chk, C02_CELLS, mask="c02")
 
 
 def c03(chk):
-    chk.extract()
+    chk.extract(("messageTypes", "timeCodeTypes"))
     chk.proofs(["Midi.Props.C03"])
     # a deviation from the MIDI table that all implementations share is not a C03 violation (it is C01/C02's);
     # the oracle here is (a) pairwise agreement of the four implementations on the same bytes and (b) the one
@@ -223,7 +223,7 @@ def blocks_then_lines(chk, exe, gen_args, name, relevant=None):
             if p and p[1] not in bad:
                 bad.append(p[1])
     line_reps = {"SPEC": [], "CORR": [], "MON": [], "MODELSPEC": [], "BAD": rep["BAD"]}
-    blocks = [b for b in bad if re.match(r"\w+blk ", b)]
+    blocks = [b for b in bad if re.match(r"\w*blk ", b)]
     for tag in ("CORR", "SPEC", "MODELSPEC"):
         line_reps[tag] += [l for l in rep[tag] if not re.match(r"\w+ \d+ \w*blk ", l)]
     if len(blocks) > 24:
@@ -248,7 +248,7 @@ def blocks_then_lines(chk, exe, gen_args, name, relevant=None):
 
 
 def c06(chk):
-    chk.extract()
+    chk.extract(("messageTypes", "timeCodeTypes"))
     chk.proofs(["Midi.Props.C06"])
     exe = chk.cargo_build("std")
     if exe is None:
@@ -302,7 +302,7 @@ def sample_from(chk, name, n=3):
 
 
 def c04(chk):
-    chk.extract()
+    chk.extract(("newtypes", "conversions", "features", "controllerNumbers"))
     chk.proofs(["Midi.Props.C04"])
     exe = chk.cargo_build("std")
     if exe is not None:
@@ -311,6 +311,11 @@ def c04(chk):
         lines_run(chk, exe, ["new-lines", "std"], "new-std")
         lines_run(chk, exe, ["num-lines"], "num")
         blocks_then_lines(chk, exe, ["msg-blocks", "c04"], "blocks")
+        # values produced by encoders and scanners (range monitor in the driver on everything the real scanners report)
+        lines_run(chk, exe, ["encpn-lines"], "encpn")
+        for k in ("cc", "pn", "pp"):
+            lines_run(chk, exe, [k + "-random"], k + "-random", stateful=True)
+        lines_run(chk, exe, ["pp-explore", 3, 0], "pp-explore-t3", stateful=True)
         sample_from(chk, "conv", 3); sample_from(chk, "new-std", 1); sample_from(chk, "num", 2)
     # configuration: no default features (crate built without `std`)
     exe2 = chk.cargo_build("")
@@ -329,7 +334,7 @@ def c04(chk):
 
 
 def c05(chk):
-    chk.extract()
+    chk.extract(("newtypes", "conversions"))
     chk.proofs(["Midi.Props.C05"])
     exe = chk.cargo_build("std")
     if exe is None:
@@ -345,13 +350,14 @@ def c05(chk):
     chk.assumptions += ["derive(PartialEq, Ord, Default), derive_more::Display and core's integer Display/FromStr are modelled, not verified"]
 
 
-def scanner_runs(chk, exe, kind, two_channel_thorough=True):
-    lines_run(chk, exe, [kind + "-explore", 0], kind + "-explore-1ch", stateful=True)
+def scanner_runs(chk, exe, kind, two_channel_thorough=True, strict=False):
+    x = ["--strict-reset"] if strict else []
+    lines_run(chk, exe, [kind + "-explore", 0] + x, kind + "-explore-1ch", stateful=True)
     if chk.tier == "thorough" and two_channel_thorough:
         lines_run(chk, exe, [kind + "-explore", 3, 15] if kind == "pn" else [kind + "-explore", 15], kind + "-explore-hi", stateful=True)
         if kind == "pn":
             lines_run(chk, exe, [kind + "-explore", 0, 9], kind + "-explore-2ch", stateful=True)
-    lines_run(chk, exe, [kind + "-random"], kind + "-random", stateful=True)
+    lines_run(chk, exe, [kind + "-random"] + x, kind + "-random", stateful=True)
     sample_from(chk, kind + "-random", 3)
 
 
@@ -363,7 +369,7 @@ EXPLORE_RULE = ("product exploration: breadth-first over REAL scanner states (ke
 
 
 def c07(chk):
-    chk.extract()
+    chk.extract(())
     chk.proofs(["Midi.Props.C07"])
     exe = chk.cargo_build("std")
     if exe is None:
@@ -378,7 +384,7 @@ def c07(chk):
 
 
 def c08(chk):
-    chk.extract()
+    chk.extract(())
     chk.proofs(["Midi.Props.C08"])
     exe = chk.cargo_build("std")
     if exe is None:
@@ -389,7 +395,7 @@ def c08(chk):
 
 
 def c09(chk):
-    chk.extract()
+    chk.extract(("controllerNumbers",))
     chk.proofs(["Midi.Props.C09"])
     exe = chk.cargo_build("std")
     if exe is None:
@@ -403,7 +409,7 @@ def c09(chk):
 
 
 def c10(chk):
-    chk.extract()
+    chk.extract(())
     chk.proofs(["Midi.Props.C10", "Midi.Props.C09"])
     exe = chk.cargo_build("std")
     if exe is None:
@@ -417,7 +423,7 @@ def c10(chk):
 
 
 def c11(chk):
-    chk.extract()
+    chk.extract(())
     chk.proofs(["Midi.Props.C11"])
     exe = chk.cargo_build("std")
     if exe is None:
@@ -434,19 +440,20 @@ POLL_RULE = ("polling scanner with the mock clock (hook): product exploration ov
              "model, and the C14 trace monitor runs on the implementation's results. non-trivial = operations that reported a message")
 
 
-def polling_runs(chk, exe, random=True):
-    lines_run(chk, exe, ["pp-explore", 0, 0], "pp-explore-t0", stateful=True)
-    lines_run(chk, exe, ["pp-explore", 3, 0], "pp-explore-t3", stateful=True)
+def polling_runs(chk, exe, random=True, strict=False):
+    x = ["--strict-reset"] if strict else []
+    lines_run(chk, exe, ["pp-explore", 0, 0] + x, "pp-explore-t0", stateful=True)
+    lines_run(chk, exe, ["pp-explore", 3, 0] + x, "pp-explore-t3", stateful=True)
     if chk.tier == "thorough":
         lines_run(chk, exe, ["pp-explore", 3, 15], "pp-explore-t3-ch15", stateful=True)
         lines_run(chk, exe, ["pp-explore", 2, 7], "pp-explore-t2-ch7", stateful=True)
     if random:
-        lines_run(chk, exe, ["pp-random"], "pp-random", stateful=True)
+        lines_run(chk, exe, ["pp-random"] + x, "pp-random", stateful=True)
         sample_from(chk, "pp-random", 3)
 
 
 def c12(chk):
-    chk.extract()
+    chk.extract(())
     chk.proofs(["Midi.Props.C12"])
     exe = chk.cargo_build("std")
     if exe is None:
@@ -463,7 +470,7 @@ def c12(chk):
 
 
 def c13(chk):
-    chk.extract()
+    chk.extract(())
     chk.proofs(["Midi.Props.C13"])
     exe = chk.cargo_build("std")
     if exe is None:
@@ -478,7 +485,7 @@ def c13(chk):
 
 
 def c14(chk):
-    chk.extract()
+    chk.extract(())
     chk.proofs(["Midi.Props.C14"])
     exe = chk.cargo_build("std")
     if exe is None:
@@ -489,7 +496,7 @@ def c14(chk):
 
 
 def c15(chk):
-    chk.extract()
+    chk.extract(())
     chk.proofs(["Midi.Props.C15"])
     exe = chk.cargo_build("std")
     if exe is None:
@@ -504,7 +511,7 @@ def c15(chk):
 
 
 def c16(chk):
-    chk.extract()
+    chk.extract(("controllerNumbers",))
     chk.proofs(["Midi.Props.C16"])
     exe = chk.cargo_build("std")
     if exe is None:
@@ -521,15 +528,15 @@ def c16(chk):
 
 
 def c17(chk):
-    chk.extract()
+    chk.extract(())
     chk.proofs(["Midi.Props.C17"])
     exe = chk.cargo_build("std")
     if exe is None:
         return
     run_corpus(chk, exe)
-    scanner_runs(chk, exe, "cc", two_channel_thorough=False)
-    scanner_runs(chk, exe, "pn", two_channel_thorough=False)
-    polling_runs(chk, exe)
+    scanner_runs(chk, exe, "cc", two_channel_thorough=False, strict=True)
+    scanner_runs(chk, exe, "pn", two_channel_thorough=False, strict=True)
+    polling_runs(chk, exe, strict=True)
     chk.cov["rule"] = ("reset applied in EVERY explored state of each scanner followed by real `== new(timeout)` / `== default()` (request mustbenew) and by the rest of the "
                        "exploration from the reset state; seeded random histories with resets, and with copies made in mid-history that are then driven independently "
                        "(original and copy each compared with the model); timeouts 0 and 3 (thorough: more)")
@@ -537,7 +544,7 @@ def c17(chk):
 
 
 def c19(chk):
-    chk.extract()
+    chk.extract(("newtypes", "messageTypes"))
     chk.proofs(["Midi.Props.C19"])
     exe = chk.cargo_build("with_serde")
     if exe is None:
@@ -556,7 +563,7 @@ def c19(chk):
 
 
 def c18(chk):
-    chk.extract()
+    chk.extract(("features", "messageTypes"))
     chk.proofs(["Midi.Props.C18"])
     # allocation half: counting allocator, low optimisation so that allocations are not elided
     exe0 = chk.cargo_build("std", profile="noopt")
